@@ -2,6 +2,7 @@ import GomlVerif.Lemmas.WtSubst
 import GomlVerif.Lemmas.MonoCollapse
 import GomlVerif.Lemmas.ValTySound
 import GomlVerif.Lemmas.ValTyStore
+import GomlVerif.Lemmas.ValTy2Sound
 /-!
 # C03 — acceptance is type-sound: every stage output is well-typed and closed
 
@@ -181,7 +182,7 @@ relates the dispatch table to the implementing function (`dispatchOk`); (4) call
 to the wildcard array length, the fragment asks for the exact instance. -/
 theorem sem_preserves_types_partial (S : Sig) (P : Prog) (hS : SigClosed S) (hP : okProg S P = true) (fuel : Nat)
     {e : Expr} {ρ : Env} {w : World} {Γ : TyEnv} {K : Know} {θ : Subst} {v : Val} {w' : World}
-    (hfrag : okE S P Γ K e = true) (hwt : wt S Γ e = true) (hρ : ET S P θ ρ Γ) (hK : KOk K ρ)
+    (hfrag : okE S P false Γ K e = true) (hwt : wt S Γ e = true) (hρ : ET S P θ ρ Γ) (hK : KOk K ρ)
     (hev : eval fuel P ρ w e = .ok v w') : VT S P v (substTy θ (getTy e)) := by
   simp only [wt, List.isEmpty_iff] at hwt
   exact (sound_all hS hP fuel).expr hfrag hwt hρ hK hev
@@ -203,7 +204,7 @@ the row of the STATIC key, the one `Model/Mono.lean` names (`traitImplFnName tr 
 theorem traitcall_static_dispatch (S : Sig) (P : Prog) (hS : SigClosed S) (hP : okProg S P = true) (fuel : Nat)
     {recv : Expr} {args : List Expr} {tr m : String} {ty : Ty} {ρ : Env} {w w1 : World} {Γ : TyEnv} {K : Know}
     {θ : Subst} {rv : Val}
-    (hfrag : okE S P Γ K recv = true) (hwt : wt S Γ recv = true) (hρ : ET S P θ ρ Γ) (hK : KOk K ρ)
+    (hfrag : okE S P false Γ K recv = true) (hwt : wt S Γ recv = true) (hρ : ET S P θ ρ Γ) (hK : KOk K ρ)
     (hc : concreteTy (substTy θ (getTy recv)) = true) (hev : eval fuel P ρ w recv = .ok rv w1) :
     valKey rv = tyKey (substTy θ (getTy recv)) ∧
     eval (fuel + 1) P ρ w (.traitCall tr m ty recv args) =
@@ -270,7 +271,7 @@ def tsS : Sig := { tsSig with fns := tsProg.fns }
 
 example : okProg tsS tsProg = true := by decide +kernel
 -- closures and function values: `let k = 3; let add = |x: int32| x + k; let f = ident; add(f(4))`
-example : okE tsS tsProg [] []
+example : okE tsS tsProg false [] []
     (.letE "k" (.prim (.int 32 true 3))
       (.letE "add" (.closure (.func [.int 32 true] (.int 32 true)) [("x", .int 32 true)]
           (.bin .add (.int 32 true) (.var "x" (.int 32 true)) (.var "k" (.int 32 true))))
@@ -284,13 +285,13 @@ example : implsOk tsS tsProg = true := by decide +kernel
 -- the dispatch-table check refuses a row whose function has another receiver type than its key says
 example : implsOk tsS { tsProg with impls := [("A", "int32", "foo", "trait_impl#A#S#foo")] } = false := by decide +kernel
 -- what the fragment refuses: the field read outside the arm that established the variant
-example : okE tsS tsProg [("o", .app (.enum "Opt") [.int 32 true])] []
+example : okE tsS tsProg false [("o", .app (.enum "Opt") [.int 32 true])] []
     (.cget (.enum "Opt" "Some" 1) 0 (.int 32 true) (.var "o" (.app (.enum "Opt") [.int 32 true]))) = false := by decide +kernel
 -- ... which `Wt` accepts although `Sem` would read a field of `None`
 example : wt tsS [("o", .app (.enum "Opt") [.int 32 true])]
     (.cget (.enum "Opt" "Some" 1) 0 (.int 32 true) (.var "o" (.app (.enum "Opt") [.int 32 true]))) = true := by decide +kernel
 -- arrays and vectors: `let a = [1, 2]; let v = vec_push(vec_new(), array_get(a, 0)); vec_len(v)`
-example : okE tsS tsProg [] []
+example : okE tsS tsProg false [] []
     (.letE "a" (.array (.array 2 (.int 32 true)) [.prim (.int 32 true 1), .prim (.int 32 true 2)])
       (.letE "v" (.call (.vec (.int 32 true)) (.var "vec_push" (.func [.vec (.int 32 true), .int 32 true] (.vec (.int 32 true))))
           [.call (.vec (.int 32 true)) (.var "vec_new" (.func [] (.vec (.int 32 true)))) [],
@@ -312,3 +313,62 @@ example : concreteTy (substTy [("T", .struct "S")] (.param "T")) = true ∧
     tyKey (substTy [("T", .struct "S")] (.param "T")) = "S" := by decide +kernel
 
 end Goml.ValTy
+
+/-! ## Type soundness of `Sem` with references (round 11, fifth pass)
+
+`ValTyR.VT S P Ψ v τ` (`Model/ValTyRef.lean`) is `ValTy.VT` indexed by a store typing `Ψ : List Ty` (location ↦ type of its
+content) with the rule `ref l : ref e` when `Ψ[l]? = some e`; `ValTyR.WT S P Ψ w` is the world invariant (one cell per entry of
+`Ψ`, each holding a value of the recorded type); `Ext Ψ Ψ'` is append-only extension.  The fragment is `okE S P true` (the flag
+admits `ref`, `ref_get`, `ref_set`).  Proofs: `Lemmas/ValTy2{Basic,Ops,Sound}.lean`. -/
+namespace Goml.ValTyR
+open Goml Goml.Sem Goml.Wt Goml.Mono Goml.ValTy
+
+/-- **Preservation with a store, partial.**  As `ValTy.sem_preserves_types_partial`, for the fragment WITH the reference
+builtins: from a well-typed world, a returned value inhabits its annotation under an append-only extension of the store
+typing, and the new world satisfies the invariant for that extension (so every later `ref_get` reads a value of the
+recorded type and no typed reference dangles).  Partial: no trait objects, `go`, builtins as values, impls for instances
+of generic types; progress is not stated. -/
+theorem sem_preserves_types_store_partial (S : Sig) (P : Prog) (hS : SigClosed S) (hP : okProg S P true = true) (fuel : Nat)
+    {e : Expr} {ρ : Env} {w : World} {Γ : TyEnv} {K : Know} {θ : Subst} {Ψ : List Ty} {v : Val} {w' : World}
+    (hfrag : okE S P true Γ K e = true) (hwt : wt S Γ e = true) (hρ : ET S P Ψ θ ρ Γ) (hK : KOk K ρ) (hw : WT S P Ψ w)
+    (hev : eval fuel P ρ w e = .ok v w') :
+    ∃ Ψ', Ext Ψ Ψ' ∧ WT S P Ψ' w' ∧ VT S P Ψ' v (substTy θ (getTy e)) := by
+  simp only [wt, List.isEmpty_iff] at hwt
+  exact (sound_all hS hP fuel).expr hfrag hwt hρ hK hw hev
+
+/-- a whole run: `main` applied in the initial world (empty store, empty store typing) returns a value of its declared
+result type and leaves a well-typed store -/
+theorem sem_preserves_types_main_partial (S : Sig) (P : Prog) (hS : SigClosed S) (hP : okProg S P true = true) (fuel : Nat)
+    {g : Fn} (hg : P.findFn "main" = some g) (hpar : g.params = []) (eager : Bool) {v : Val} {w' : World}
+    (hev : apply fuel P { eager := eager } (.fn "main") [] = .ok v w') :
+    ∃ Ψ', WT S P Ψ' w' ∧ VT S P Ψ' v (substTy [] g.ret) := by
+  have hw : WT S P [] ({ eager := eager } : World) := ⟨rfl, by intro l v h; simp at h⟩
+  obtain ⟨Ψ', _, hw', hv⟩ := (sound_all hS hP fuel).app (θ := []) (Ψ := []) hg (by rw [hpar]; exact .nil) hw hev
+  exact ⟨Ψ', hw', hv⟩
+
+/-- static dispatch, store-typed version -/
+theorem traitcall_static_dispatch_store (S : Sig) (P : Prog) (hS : SigClosed S) (hP : okProg S P true = true) (fuel : Nat)
+    {recv : Expr} {ρ : Env} {w w1 : World} {Γ : TyEnv} {K : Know} {θ : Subst} {Ψ : List Ty} {rv : Val}
+    (hfrag : okE S P true Γ K recv = true) (hwt : wt S Γ recv = true) (hρ : ET S P Ψ θ ρ Γ) (hK : KOk K ρ) (hw : WT S P Ψ w)
+    (hc : concreteTy (substTy θ (getTy recv)) = true) (hev : eval fuel P ρ w recv = .ok rv w1) :
+    valKey rv = tyKey (substTy θ (getTy recv)) := by
+  obtain ⟨Ψ', _, _, hv⟩ := sem_preserves_types_store_partial S P hS hP fuel hfrag hwt hρ hK hw hev
+  exact valKey_of_VT hc hv
+
+-- `let r = ref(1); let u = ref_set(r, ref_get(r) + 1); ref_get(r)`
+example : okE ValTy.tsS ValTy.tsProg true [] []
+    (.letE "r" (.call (.ref (.int 32 true)) (.var "ref" (.func [.int 32 true] (.ref (.int 32 true)))) [.prim (.int 32 true 1)])
+      (.letE "u" (.call .unit (.var "ref_set" (.func [.ref (.int 32 true), .int 32 true] .unit))
+          [.var "r" (.ref (.int 32 true)),
+           .bin .add (.int 32 true)
+             (.call (.int 32 true) (.var "ref_get" (.func [.ref (.int 32 true)] (.int 32 true))) [.var "r" (.ref (.int 32 true))])
+             (.prim (.int 32 true 1))])
+        (.call (.int 32 true) (.var "ref_get" (.func [.ref (.int 32 true)] (.int 32 true))) [.var "r" (.ref (.int 32 true))]))) = true := by
+  decide +kernel
+-- the same expression is outside the reference-free fragment
+example : okE ValTy.tsS ValTy.tsProg false [] []
+    (.call (.ref (.int 32 true)) (.var "ref" (.func [.int 32 true] (.ref (.int 32 true)))) [.prim (.int 32 true 1)]) = false := by
+  decide +kernel
+example : okProg ValTy.tsS ValTy.tsProg true = true := by decide +kernel
+
+end Goml.ValTyR
